@@ -285,6 +285,9 @@ func runWorker(args []string) int {
 		}
 	}
 	if w.dump {
+		// first the scenario as generated (if preparing it - the solo oracle runs the code
+		// under test - kills this process too, the parent still has that), then as prepared
+		emit(&Line{Ev: "scenario", Idx: w.only, Scenario: def.Gen(w.seed, w.only)})
 		sc := scenarioFor(def, w, w.only)
 		emit(&Line{Ev: "scenario", Idx: w.only, Scenario: sc})
 		return 0
